@@ -268,19 +268,18 @@ theorem good_serveOne {wf ex : Option Nat} {s s' : St} (hg : Good wf ex s) (h : 
     · simp [nums, h1, hn]
 
 theorem good_serveMany {wf ex : Option Nat} (k : Nat) {s : St} (hg : Good wf ex s) :
-    Good wf ex (serveMany k s) ∧ (serveMany k s).files = s.files := by
+    Good wf ex (serveMany k s) ∧ (serveMany k s).files = s.files ∧ (serveMany k s).maxReq = s.maxReq := by
   induction k generalizing s with
-  | zero => exact ⟨hg, rfl⟩
+  | zero => exact ⟨hg, rfl, rfl⟩
   | succ k ih =>
     simp only [serveMany]
     cases hs : serveOne s with
-    | none => exact ⟨hg, rfl⟩
+    | none => exact ⟨hg, rfl, rfl⟩
     | some s' =>
       simp only
-      obtain ⟨g1, _, g3, _⟩ := good_serveOne hg hs
-      obtain ⟨a, b⟩ := ih g1
-      exact ⟨a, by rw [b, g3]⟩
-
+      obtain ⟨g1, _, g3, _, _, g6⟩ := good_serveOne hg hs
+      obtain ⟨a, b, c⟩ := ih g1
+      exact ⟨a, by rw [b, g3], by rw [c, g6]⟩
 
 /-! ## taking one response off the wire and dispatching it -/
 
@@ -1037,7 +1036,8 @@ theorem drainCheck_good {s : St} (f : Nat) (hg : Good none none s) :
 
 theorem closeFile_good {s : St} {f : Nat} (hg : Good none none s) (hf : f < s.files.length) :
     Outcome f s (closeFile s f) ∧
-    ((getFile s f).closed = false → (closeFile s f).2 = .ok → (closeFile s f).1.badSince.getD f 0 = 0) := by
+    ((getFile s f).closed = false → (closeFile s f).2 = .ok →
+      (closeFile s f).1.badSince.getD f 0 = 0 ∧ ∀ sl ∈ (closeFile s f).1.wire, sl.owner ≠ some f) := by
   unfold closeFile
   simp only
   by_cases hc : (getFile s f).closed = true
@@ -1109,8 +1109,10 @@ theorem closeFile_good {s : St} {f : Nat} (hg : Good none none s) (hf : f < s.fi
             cases hsv
       cases r2 with
       | hang => exact absurd rfl q1
-      | ok => exact ⟨⟨(by simp), fun _ => q2, (fun c h => by cases h), (by rw [q3, o4, hlen0]), (by rw [q4, o5]; rfl)⟩, fun _ _ => hfin⟩
-      | raised c => exact ⟨⟨(by simp), fun _ => q2, (fun c h => by cases h), (by rw [q3, o4, hlen0]), (by rw [q4, o5]; rfl)⟩, fun _ _ => hfin⟩
+      | ok => exact ⟨⟨(by simp), fun _ => q2, (fun c h => by cases h), (by rw [q3, o4, hlen0]), (by rw [q4, o5]; rfl)⟩,
+          fun _ _ => ⟨hfin, noOwner_sub q6 hnone⟩⟩
+      | raised c => exact ⟨⟨(by simp), fun _ => q2, (fun c h => by cases h), (by rw [q3, o4, hlen0]), (by rw [q4, o5]; rfl)⟩,
+          fun _ _ => ⟨hfin, noOwner_sub q6 hnone⟩⟩
     | raised code =>
       have hg1 := o3 code rfl
       obtain ⟨q1, q2, q3, q4, _, _⟩ := request_good hg1 (.close f)
@@ -1132,34 +1134,38 @@ def OpOK (nfiles : Nat) : Op → Prop
   | _ => True
 
 theorem stepOp_good {s : St} {op : Op} (hg : Good none none s) (hop : OpOK s.files.length op) :
-    (stepOp s op).2 ≠ .hang ∧ Good none none (stepOp s op).1 ∧ (stepOp s op).1.files.length = s.files.length := by
+    (stepOp s op).2 ≠ .hang ∧ Good none none (stepOp s op).1 ∧ (stepOp s op).1.files.length = s.files.length ∧
+    (stepOp s op).1.maxReq = s.maxReq := by
+  have hrm : ∀ (t : St) (f : Nat) (r : Res), (resetBad t f r).maxReq = t.maxReq := by
+    intro t f r; cases r <;> rfl
   cases op with
   | write f data =>
     simp only [stepOp]
     split
-    · exact ⟨by simp, hg, rfl⟩
-    · obtain ⟨a, b, c, d, _⟩ := writeAll_good (data.length + 1) s f data hg hop
-      exact ⟨a, good_resetBad _ b c a, by rw [resetBad_files]; exact d⟩
+    · exact ⟨by simp, hg, rfl, rfl⟩
+    · obtain ⟨a, b, c, d, e⟩ := writeAll_good (data.length + 1) s f data hg hop
+      exact ⟨a, good_resetBad _ b c a, (by rw [resetBad_files]; exact d), (by rw [hrm]; exact e)⟩
   | sync =>
     simp only [stepOp]
-    obtain ⟨r1, r2, r3, _⟩ := request_good hg .sync
-    exact ⟨r1, r2, r3⟩
+    obtain ⟨r1, r2, r3, r4, _⟩ := request_good hg .sync
+    exact ⟨r1, r2, r3, r4⟩
   | close f =>
     simp only [stepOp]
-    obtain ⟨⟨a, b, c, d, _⟩, _⟩ := closeFile_good hg hop
-    exact ⟨a, good_resetBad _ b c a, by rw [resetBad_files]; exact d⟩
+    obtain ⟨⟨a, b, c, d, e⟩, _⟩ := closeFile_good hg hop
+    exact ⟨a, good_resetBad _ b c a, (by rw [resetBad_files]; exact d), (by rw [hrm]; exact e)⟩
   | setPipelined f b =>
     simp only [stepOp]
     have hg0 : Good none none (setFile s f (fun x => { x with pipelined := b })) :=
       good_setFile f _ (fun x => ⟨rfl, rfl⟩) hg
     split
-    · obtain ⟨⟨a, b', c, d, _⟩, _⟩ := drainCheck_good f hg0
-      exact ⟨a, good_resetBad _ b' c a, by rw [resetBad_files, d]; exact files_setFile_length _ _ _⟩
-    · exact ⟨by simp, hg0, files_setFile_length _ _ _⟩
+    · obtain ⟨⟨a, b', c, d, e⟩, _⟩ := drainCheck_good f hg0
+      exact ⟨a, good_resetBad _ b' c a, (by rw [resetBad_files, d]; exact files_setFile_length _ _ _),
+        (by rw [hrm, e]; rfl)⟩
+    · exact ⟨by simp, hg0, files_setFile_length _ _ _, rfl⟩
   | serve k =>
     simp only [stepOp]
-    obtain ⟨a, b⟩ := good_serveMany k hg
-    exact ⟨by simp, a, by rw [b]⟩
+    obtain ⟨a, b, c⟩ := good_serveMany k hg
+    exact ⟨by simp, a, (by rw [b]), c⟩
 
 theorem runOps_good : ∀ (ops : List Op) (s : St), Good none none s → (∀ op ∈ ops, OpOK s.files.length op) →
     (∀ r ∈ (runOps s ops).2, r ≠ .hang) ∧ Good none none (runOps s ops).1 ∧
@@ -1170,7 +1176,7 @@ theorem runOps_good : ∀ (ops : List Op) (s : St), Good none none s → (∀ op
   | cons op ops ih =>
     intro s hg hops
     simp only [runOps]
-    obtain ⟨a, b, c⟩ := stepOp_good hg (hops op (List.mem_cons_self ..))
+    obtain ⟨a, b, c, _⟩ := stepOp_good hg (hops op (List.mem_cons_self ..))
     obtain ⟨i1, i2, i3⟩ := ih (stepOp s op).1 b (by
       intro o ho; rw [c]; exact hops o (List.mem_cons_of_mem _ ho))
     refine ⟨?_, i2, by rw [i3, c]⟩
